@@ -289,7 +289,46 @@ def t_hmc(E):
     k = key(E)
     ad = E.call(INC + ":Diff.no_change", E.method(tr0, "get_args"))
     new, alpha, rd, bwd = E.method(hmc, "edit", k, tr0, ad)
-    loop = [s for s in E.I.scans if s.shape is not None][0]
+    scans = [s for s in getattr(E.I, "scans", []) if s.shape is not None]
+    if not scans:
+        # a path on which the code ran no loop at all: only a single step can be written out - and it must be the leapfrog step
+        E.require("C28.HMC.without_a_loop_only_a_single_step_is_run", E.ctx.entails(L.t == 1))
+        adu, selu = E.I.to_u(ad), sel.t
+        nt = z3.simplify(E.I.to_u(new))
+        E.require("C28.HMC.single_step.returns_an_update_of_the_model_trace",
+                  z3.is_app(nt) and nt.decl().name() == "gf_edit_tr" and nt.num_args() == 5)
+        found, seen_ = [], set()
+
+        def walk(e):
+            if e.get_id() in seen_:
+                return
+            seen_.add(e.get_id())
+            if z3.is_app(e) and e.decl().eq(mom_f(k.t, k.t).decl()):
+                found.append(e)
+                return
+            for ch in e.children():
+                walk(ch)
+        walk(nt.arg(3))
+        E.require("C28.HMC.single_step.the_move_uses_one_draw_of_momenta", len(found) == 1)
+        p0 = UVal(found[0], "ChoiceMap")
+        raw = lambda x: UVal(x.t) if isinstance(x, UVal) else x
+        add, mul = (lambda a, b: E.I.binop("Add", raw(a), raw(b))), (lambda a, b: E.I.binop("Mult", raw(a), raw(b)))
+        half = E.I.binop("Div", eps, 2)
+        kick_ = lambda p, g: UVal(add(p, mul(half, g)).t, "ChoiceMap")
+        drift = lambda q, p: UVal(add(q, mul(eps, p)).t, "ChoiceMap")
+        g0 = UVal(grad_f(tr0.t, selu, adu), "ChoiceMap")
+        q0 = UVal(vals_f(tr0.t, selu), "ChoiceMap")
+        p_half = kick_(p0, g0)
+        E.prove("C28.HMC.single_step.is_one_leapfrog_step_half_kick_drift_half_kick", z3.And(
+            nt.arg(0) == model.t, nt.arg(2) == tr0.t, nt.arg(4) == adu,
+            nt.arg(3) == E.I.to_u(update(E, drift(q0, p_half))),
+            found[0].arg(1) == g0.t if found[0].num_args() > 1 else True))
+        p1 = kick_(p_half, UVal(grad_f(nt, selu, adu), "ChoiceMap"))
+        E.prove("C28.HMC.alpha_is_H_start_minus_H_end", E.eq(alpha, SReal(
+            T.tr_score(nt) - T.tr_score(tr0.t) + mlp_f(p1.t, z3.RealVal(-1)) - mlp_f(p0.t, z3.RealVal(1)))))
+        E.refutable("hmc.edit", E.eq(alpha, 0.0))
+        return
+    loop = scans[0]
     split = E.ctx.fn("split", U, z3.IntSort(), z3.IntSort(), U)
     k_loop, k_mom = split(k.t, 2, 0), split(k.t, 2, 1)
     adu, selu = E.I.to_u(ad), sel.t
